@@ -63,15 +63,16 @@ func run(pass *analysis.Pass) (any, error) {
 		if decl.Recv != nil {
 			kind = "method"
 			var ident *ast.Ident
-			T := decl.Recv.List[0].Type
+			// The receiver type may be parenthesized: (T), *(T), (*T), (*(T[K])), ...
+			T := ast.Unparen(decl.Recv.List[0].Type)
 			if T_, ok := T.(*ast.StarExpr); ok {
-				T = T_.X
+				T = ast.Unparen(T_.X)
 			}
 			switch T := T.(type) {
 			case *ast.IndexExpr:
-				ident = T.X.(*ast.Ident)
+				ident = ast.Unparen(T.X).(*ast.Ident)
 			case *ast.IndexListExpr:
-				ident = T.X.(*ast.Ident)
+				ident = ast.Unparen(T.X).(*ast.Ident)
 			case *ast.Ident:
 				ident = T
 			default:
